@@ -26,6 +26,7 @@ import tempfile
 
 from lib import fw
 from lib import crashfs
+from lib import deathbox
 
 PROP = 'C19'
 COQ_HEADER = 'From FV Require Import Model.C19_Model.\nLocal Open Scope Z_scope.'
@@ -67,9 +68,16 @@ def _final(case):
 
 
 
-def _payload(n):
+def _payload(n, fill=0):
+  """fill 0: a pattern that is not periodic in the block size (duplicated / shifted blocks are visible; compresses
+  moderately); 1: highly compressible (a 3-block payload compresses to a few hundred bytes); 2: incompressible
+  (the compressed file is larger than the payload, so larger than one copy buffer whenever the payload is)."""
   import numpy as np
-  i = np.arange(n, dtype=np.int64)   # not periodic in the block size: duplicated / shifted blocks are visible
+  if fill == 1:
+    return b'\x00' * (n - n // 3) + b'\x01' * (n // 3)
+  if fill == 2:
+    return np.random.RandomState(1234).randint(0, 256, size=n, dtype=np.uint8).tobytes()
+  i = np.arange(n, dtype=np.int64)
   return ((i * 7 + (i >> 8) * 13 + (i >> 16) + 3) & 0xFF).astype(np.uint8).tobytes()
 
 
@@ -78,9 +86,9 @@ _PAY = {}
 
 def _data(case):
   """(payload the final file must equal, compressed bytes or None)"""
-  key = (case['kind'], case['size'])
+  key = (case['kind'], case['size'], case.get('fill', 0))
   if key not in _PAY:
-    p = _payload(case['size'])
+    p = _payload(case['size'], case.get('fill', 0))
     _PAY[key] = (p, real_lzma.compress(p, preset=0) if case['kind'] == 'decompress' else None)
   return _PAY[key]
 
@@ -320,15 +328,19 @@ def _file_state(root, name, payload):
   return ['w', len(data)] if payload[:len(data)] == data else ['g', len(data)]
 
 
-def _attempt(case, root, fault, compressed):
-  """One call of the function under test with the given fault."""
+def _attempt_core(case, root, fault, real_death=False):
+  """One call of the function under test with the given fault; real_death: the crash kills this process."""
   from fedjax.datasets import downloads as dl
-  payload, _ = _data(case)
+  payload, compressed = _data(case)
   kind = case['kind']
   crash = fault[1:] if fault and fault[0] == 'crash' else None
   rec = crashfs.Recorder(*(crash if crash else (None, 0, 0)),
                          close_error=fault[1] if fault and fault[0] == 'flusherr' else None)
   env = _Env(root, rec, payload, fault)
+  if real_death:
+    rec.on_death = lambda r: deathbox.die_now({'fault': fault, 'outcome': 'crash', 'trace': [list(e) for e in r.trace],
+                                                'raw_writes': {str(k): v for k, v in r.raw_writes.items()},
+                                                'net_touched': env.net_touched, 'read_sizes': env.read_sizes})
   final = _final(case)
   src_name = NAMES[case.get('name', 0)]
   if kind == 'decompress':
@@ -363,11 +375,41 @@ def _attempt(case, root, fault, compressed):
       out['outcome'] = 'raise:' + type(ex).__name__
   out['trace'] = [list(e) for e in rec.trace]
   out['raw_writes'] = {str(k): v for k, v in rec.raw_writes.items()}
+  out['net_touched'] = env.net_touched
+  out['read_sizes'] = env.read_sizes
+  return out
+
+
+def _attempt_child(case, root, fault):
+  return _attempt_core(case, root, fault, real_death=True)
+
+
+REAL_DEATH = os.environ.get('VERIF_NO_FORK') != '1'
+
+
+def _killed(fn, args):
+  """Runs harness function fn(*args) in a forked child that really dies at the crash effect."""
+  r = deathbox.box(1).call('harness.c19', fn, args)
+  if r['error'] or (r['result'] is None and r['death'] is None):
+    raise RuntimeError('deathbox child failed: %s' % (r['error'] or r['exit']))
+  if r['death'] is not None and r['exit'] != deathbox.DEATH_EXIT:
+    raise RuntimeError('deathbox child: unexpected exit code %s' % r['exit'])
+  return r['result'] if r['result'] is not None else r['death']
+
+
+def _attempt(case, root, fault, compressed=None):
+  """One call with the given fault.  A crash is a REAL process death: the call runs in a forked child that
+  os._exit()s at the chosen effect, so no cleanup code of the implementation can run after it."""
+  payload, _ = _data(case)
+  final = _final(case)
+  src_name = NAMES[case.get('name', 0)]
+  if fault and fault[0] == 'crash' and REAL_DEATH:
+    out = _killed('_attempt_child', [case, root, fault])
+  else:
+    out = _attempt_core(case, root, fault)
   out['final'] = _file_state(root, final, payload)
   out['partial'] = _file_state(root, final + '.partial', payload)
   out['others'] = [n for n in crashfs.listing(root) if n not in (final, final + '.partial', src_name)]
-  out['net_touched'] = env.net_touched
-  out['read_sizes'] = env.read_sizes
   return out
 
 
@@ -422,7 +464,7 @@ def _db_state(path):
   return ['w', len(ids)] if ids == _split_ids(len(ids)) and len(ids) <= SPLIT_TOTAL else ['g', -1]
 
 
-def _split_attempt(case, root, fault):
+def _split_core(case, root, fault, real_death=False):
   import numpy as np
   from fedjax.datasets import cifar100
   from fedjax.datasets import downloads as dl
@@ -431,6 +473,9 @@ def _split_attempt(case, root, fault):
   crash = fault[1:] if fault and fault[0] == 'crash' else None
   rec = crashfs.Recorder(*(crash if crash else (None, 0, 0)))
   env = _Env(root, rec, b'', fault)
+  if real_death:
+    rec.on_death = lambda r: deathbox.die_now({'fault': fault, 'outcome': 'crash', 'trace': [list(e) for e in r.trace],
+                                                'raw_writes': {}, 'net_touched': env.net_touched, 'read_sizes': []})
   final = f'federated_cifar100_{split}.sqlite'
   saved = (dl.maybe_download, dl.maybe_lzma_decompress, dl.validate_file, dl.log, sfd.TFFSQLiteClientsIterator,
            sfd.SQLiteFederatedDataBuilder, cifar100.os)
@@ -515,12 +560,25 @@ def _split_attempt(case, root, fault):
      sfd.SQLiteFederatedDataBuilder, cifar100.os) = saved
   out['trace'] = [list(e) for e in rec.trace]
   out['raw_writes'] = {}
+  out['net_touched'] = env.net_touched
+  out['read_sizes'] = []
+  return out
+
+
+def _split_child(case, root, fault):
+  return _split_core(case, root, fault, real_death=True)
+
+
+def _split_attempt(case, root, fault):
+  final = f'federated_cifar100_{case["split"]}.sqlite'
+  if fault and fault[0] == 'crash' and REAL_DEATH:
+    out = _killed('_split_child', [case, root, fault])
+  else:
+    out = _split_core(case, root, fault)
   out['final'] = _db_state(os.path.join(root, final))
   out['partial'] = _db_state(os.path.join(root, final + '.partial'))
   out['others'] = [n for n in crashfs.listing(root) if n not in (final, final + '.partial', 'cifar100.sqlite.lzma',
                                                                   'cifar100.sqlite')]
-  out['net_touched'] = env.net_touched
-  out['read_sizes'] = []
   return out
 
 
@@ -733,6 +791,19 @@ def oracle(case, obs):
                   f'{a["final"][1]} {unit} ({"a strict prefix of" if a["final"][0] == "w" else "NOT a prefix of"} '
                   f'the {n} {unit} of the complete content)'))
       break
+  if kind == 'download':
+    # exact integer arithmetic: a call that fetches the file reads ceil(n / B) blocks, no more and no fewer
+    for i, a in enumerate(att):
+      if a['outcome'] == 'ret' and a['net_touched']:
+        reads = sum(1 for e in a['trace'] if e[0] == 'read')
+        if reads != -(-n // BS):
+          out.append(('download-read-count', f'attempt {i}: {reads} raw.read calls for a {n}-byte payload, '
+                      f'ceil(n / {BS}) = {-(-n // BS)}'))
+          break
+  for i, a in enumerate(att):
+    if a['outcome'] == 'ret' and not a.get('ret_ok'):
+      out.append((f'{kind}-returned-path', f'attempt {i}: the call returned something else than the final cache path'))
+      break
   ok = att[-2]
   if not (ok['outcome'] == 'ret' and ok.get('ret_ok') and ok['final'] == ['w', n]):
     out.append((f'{kind}-retry-does-not-repair',
@@ -941,10 +1012,20 @@ def generate(tier, rng):
       yield {**case, 'attempts': [f, f]}
     for _ in range(30 if full else 8):
       yield {**case, 'attempts': [rng.choice(singles) for _ in range(rng.randrange(2, 5))]}
+  # every size k*B + d, k = 0..4, d = -2..2: block count / chunk count against exact arithmetic, uninterrupted
+  for kind, b in (('download', BS), ('decompress', cb)):
+    for k in range(0, 5 if full else 4):
+      for d in range(-2, 3):
+        if k * b + d >= 0:
+          yield {'kind': kind, 'size': k * b + d, 'attempts': [], 'fill': (k + d) % 3}
   for kind in ('download', 'decompress'):
     for i, n in enumerate(sizes[kind]):
-      case = {'kind': kind, 'size': n, 'attempts': [], 'form': i % 4, 'name': i % len(NAMES)}
+      case = {'kind': kind, 'size': n, 'attempts': [], 'form': i % 4, 'name': i % len(NAMES), 'fill': i % 3}
       yield case
+      for fill in range(3):                                 # fast paths by size of the COMPRESSED file / of the payload
+        if fill != case['fill']:
+          yield {**case, 'fill': fill}
+          yield {**case, 'fill': fill, 'attempts': [['crash', 4 + (i + fill) % 4, 0, (i + fill) % 3]]}
       yield {**case, 'stale': 1 + i}                       # a stale .partial longer than the payload
       singles = _single_faults(case, full, i)
       yield {**case, 'stale': 1 + i, 'attempts': [singles[i % len(singles)]]}
